@@ -172,14 +172,14 @@ PROPS = {
                       "(rebuild_dominates, merge_witnesses_remote), written times exceed everything seen (written_dominates); a deleted clock "
                       "restarts at 1 and a torn one errors (so rebuilding from the entities is required: checked on the CLI path). The "
                       "necessary hypothesis HopOK is made explicit by a kernel-checked counterexample (commit_unreadable_when_clock_far), "
-                      "replayed on the real code every run (known finding).",
+                      "replayed on the real code every run (known finding). The in-memory clock under concurrency is modelled at the granularity of its atomic operations (load, compare-and-swap, add): for every interleaving of any number of goroutines the counter never decreases and a returned Witness(v) leaves it at or above v for good (CAS.witness_cas_linear).",
         "level_note": "Trusted: Lean kernel, harness. uint64 overflow and the CAS retry loop under real concurrency are not modelled "
                       "(witness is modelled sequentially; witness_fold shows any order ends at the maximum). Decimal rendering of the clock "
                       "file is abstracted (FileState) and validated on real files. Fixed in /repo: CLI opened the repository without clock "
                       "loaders. Known finding: hop limit vs per-type clock.",
         "required_theorems": ["increment_gt", "witness_ge", "witness_fold", "step_synced", "step_monotone", "run_monotone", "increment_fresh",
                               "witness_dominates", "persist_restart", "deleted_clock_restarts", "torn_clock_errors", "rebuild_dominates",
-                              "merge_witnesses_remote", "written_dominates", "commit_unreadable_when_clock_far"],
+                              "merge_witnesses_remote", "written_dominates", "commit_unreadable_when_clock_far", "CAS.witness_cas_linear", "CAS.step_inv"],
         "slices": ["C05"],
         "needs_gitbug": True,
         "rule": "clock sessions: 1..40 (quick) / 1..200 (thorough) operations over {increment, witness (small, equal, far ahead), read, "
